@@ -4,22 +4,20 @@ from pathlib import Path
 ROOT = Path(__file__).resolve().parent.parent
 ALL = ["C%02d" % i for i in range(1, 21)]
 
-CHECKS = {
-    "C05": dict(
-        text="Theorems in Coq (C05_text_roundtrip, C05_normal_form, C05_consumer_reads_back, C05_nf_is_what_consumers_need) about an "
-             "executable Gallina model of the white-space codec, for every string and every split, any prior content; the model is tied to "
-             "/repo on every run by evaluating, inside Coq, the normal-form predicate, the ODF consumer and the model's own output on the "
-             "item lists abstracted from the implementation's XML.",
-        design_ref="DESIGN.md section 5 / C05, Appendix A.2",
-        note="Trusted: Coq kernel + vm_compute; the Python harness (generator, lxml abstraction, cases printer); lxml; the ODF 6.1.2 "
-             "consumer reading fixed in DESIGN.md. Modelled: paragraph.py white-space functions and Element.__append for strings.",
-        technique="Coq proof (induction over chunk lists) + per-run model/implementation correspondence evaluated by vm_compute"),
-}
+CHECKS = {}   # filled from harness/entries/Cxx.json
 
 NOT_YET = "check not built yet in this round (see DESIGN.md section 8, build order); not claimed until it is"
 
 
 def main():
+    for f in sorted((ROOT / "harness" / "entries").glob("C*.json")):
+        CHECKS[f.stem] = json.loads(f.read_text())
+    # consolidate the known-findings fragments into the single committed file
+    findings, fixed = [], []
+    for f in sorted((ROOT / "known_findings.d").glob("C*.json")):
+        d = json.loads(f.read_text())
+        findings += d.get("findings", []); fixed += d.get("fixed", [])
+    (ROOT / "known_findings.json").write_text(json.dumps(dict(findings=findings, fixed=fixed), indent=1, ensure_ascii=False) + "\n")
     checks = []
     for pid in ALL:
         if pid not in CHECKS:
